@@ -48,6 +48,22 @@ func constString(info *types.Info, pkgFiles []*ast.File, e ast.Expr, depth int) 
 		return constant.StringVal(tv.Value), true
 	}
 	switch x := e.(type) {
+	case *ast.ParenExpr:
+		return constString(info, pkgFiles, x.X, depth)
+	case *ast.BinaryExpr:
+		// a text assembled with `+` from literals, constants and initialised variables
+		if x.Op != token.ADD {
+			return "", false
+		}
+		a, ok := constString(info, pkgFiles, x.X, depth)
+		if !ok {
+			return "", false
+		}
+		b, ok := constString(info, pkgFiles, x.Y, depth)
+		if !ok {
+			return "", false
+		}
+		return a + b, true
 	case *ast.Ident:
 		obj := info.Uses[x]
 		if obj == nil {
@@ -92,33 +108,253 @@ func constString(info *types.Info, pkgFiles []*ast.File, e ast.Expr, depth int) 
 	return "", false
 }
 
+// introspectionQueryText evaluates the text that is *sent*: the expression given as `Query` of
+// the request built by introspectRemoteSchema (whatever the variable behind it is called).
 func (r *Run) introspectionQueryText() (string, token.Pos, bool) {
 	p := r.P.ByPath[introPkg]
 	if p == nil {
 		return "", token.NoPos, false
 	}
-	// the text passed as Query in the request built by introspectRemoteSchema
-	for _, f := range p.Syntax {
-		for _, d := range f.Decls {
-			gd, ok := d.(*ast.GenDecl)
+	var sent []ast.Expr
+	// (the function is found the way every anchor is: by its frozen signature when renamed)
+	var bodies []ast.Node
+	if fn := r.P.Fn("introspection.introspectRemoteSchema"); fn != nil {
+		if nd := syntaxOf(fn); nd != nil {
+			bodies = append(bodies, nd)
+		}
+	}
+	for _, body := range bodies {
+		ast.Inspect(body, func(nd ast.Node) bool {
+			cl, ok := nd.(*ast.CompositeLit)
 			if !ok {
+				return true
+			}
+			tv, ok := p.TypesInfo.Types[cl]
+			if !ok || tv.Type == nil || !strings.HasSuffix(namedOf(tv.Type), "requests.Request") {
+				return true
+			}
+			for _, e := range cl.Elts {
+				if kv, ok := e.(*ast.KeyValueExpr); ok {
+					if id, ok := kv.Key.(*ast.Ident); ok && id.Name == "Query" {
+						sent = append(sent, kv.Value)
+					}
+				}
+			}
+			return true
+		})
+	}
+	if len(sent) != 1 {
+		return "", token.NoPos, false
+	}
+	s, ok := constString(p.TypesInfo, p.Syntax, sent[0], 0)
+	return s, sent[0].Pos(), ok
+}
+
+// decodeStructs: the structs the services' answer is decoded into, found by role — the root is
+// the struct of package introspection with a field decoded from the key "__schema"; the others
+// are the named structs of the package reachable through its fields (embedded ones included).
+func (r *Run) decodeStructs() (root *types.Named, all []*types.Named) {
+	p := r.P.ByPath[introPkg]
+	if p == nil {
+		return nil, nil
+	}
+	scope := p.Types.Scope()
+	for _, name := range scope.Names() {
+		tn, ok := scope.Lookup(name).(*types.TypeName)
+		if !ok {
+			continue
+		}
+		nt, ok := tn.Type().(*types.Named)
+		if !ok {
+			continue
+		}
+		st, ok := nt.Underlying().(*types.Struct)
+		if !ok {
+			continue
+		}
+		for i := 0; i < st.NumFields(); i++ {
+			if jsonKey(st.Tag(i)) == "__schema" {
+				root = nt
+			}
+		}
+	}
+	if root == nil {
+		return nil, nil
+	}
+	seen := map[*types.Named]bool{}
+	var visit func(t types.Type, depth int)
+	visit = func(t types.Type, depth int) {
+		for i := 0; i < 6; i++ {
+			switch x := t.(type) {
+			case *types.Pointer:
+				t = x.Elem()
+				continue
+			case *types.Slice:
+				t = x.Elem()
+				continue
+			case *types.Array:
+				t = x.Elem()
+				continue
+			case *types.Map:
+				t = x.Elem()
 				continue
 			}
-			for _, sp := range gd.Specs {
-				vs, ok := sp.(*ast.ValueSpec)
-				if !ok {
+			break
+		}
+		nt, ok := t.(*types.Named)
+		if !ok || seen[nt] || nt.Obj().Pkg() == nil || nt.Obj().Pkg().Path() != introPkg {
+			return
+		}
+		st, ok := nt.Underlying().(*types.Struct)
+		if !ok {
+			return
+		}
+		seen[nt] = true
+		all = append(all, nt)
+		for i := 0; i < st.NumFields(); i++ {
+			visit(st.Field(i).Type(), depth+1)
+		}
+	}
+	visit(root, 0)
+	sort.Slice(all, func(i, j int) bool { return all[i].Obj().Name() < all[j].Obj().Name() })
+	return root, all
+}
+
+// decodeRoleNames: the names under which the decode structs are reported, by the place of the
+// answer they are decoded from (the first JSON path that reaches them) — obligations and known
+// findings keep their key when a struct is renamed.
+var decodeRoleNames = map[string]string{
+	"$":                                 "IntrospectionQueryResult",
+	"$.__schema":                        "IntrospectionQuerySchema",
+	"$.__schema.queryType":              "IntrospectionQueryRootType",
+	"$.__schema.mutationType":           "IntrospectionQueryRootType",
+	"$.__schema.subscriptionType":       "IntrospectionQueryRootType",
+	"$.__schema.types":                  "IntrospectionQueryFullType",
+	"$.__schema.types.fields":           "IntrospectionQueryFullTypeField",
+	"$.__schema.types.enumValues":       "IntrospectionQueryEnumDefinition",
+	"$.__schema.types.inputFields":      "IntrospectionInputValue",
+	"$.__schema.directives.args":        "IntrospectionInputValue",
+	"$.__schema.types.fields.args":      "IntrospectionInputValue",
+	"$.__schema.types.interfaces":       "IntrospectionTypeRef",
+	"$.__schema.types.possibleTypes":    "IntrospectionTypeRef",
+	"$.__schema.types.fields.type":      "IntrospectionTypeRef",
+	"$.__schema.types.inputFields.type": "IntrospectionTypeRef",
+	"$.__schema.directives.args.type":   "IntrospectionTypeRef",
+	"$.__schema.directives":             "IntrospectionQueryDirective",
+}
+
+// decodeRoles maps each decode struct to its role name (its Go name when the place it is decoded
+// from has no entry) and to the first JSON path reaching it.
+func (r *Run) decodeRoles() (names map[*types.Named]string, paths map[*types.Named]string) {
+	names, paths = map[*types.Named]string{}, map[*types.Named]string{}
+	root, _ := r.decodeStructs()
+	if root == nil {
+		return
+	}
+	type item struct {
+		nt   *types.Named
+		path string
+	}
+	queue := []item{{root, "$"}}
+	for len(queue) > 0 {
+		it := queue[0]
+		queue = queue[1:]
+		if _, done := paths[it.nt]; done {
+			continue
+		}
+		paths[it.nt] = it.path
+		if n, ok := decodeRoleNames[it.path]; ok {
+			names[it.nt] = n
+		} else {
+			names[it.nt] = it.nt.Obj().Name()
+		}
+		st, ok := it.nt.Underlying().(*types.Struct)
+		if !ok {
+			continue
+		}
+		type kf struct {
+			k string
+			t types.Type
+		}
+		var fs []kf
+		for i := 0; i < st.NumFields(); i++ {
+			k := jsonKey(st.Tag(i))
+			if k == "-" {
+				continue
+			}
+			if k == "" {
+				if !st.Field(i).Embedded() {
 					continue
 				}
-				for i, n := range vs.Names {
-					if n.Name == "introspectionQuery" && i < len(vs.Values) {
-						s, ok := constString(p.TypesInfo, p.Syntax, vs.Values[i], 0)
-						return s, n.Pos(), ok
-					}
+				k = "<" + st.Field(i).Name() + ">"
+			}
+			fs = append(fs, kf{k, st.Field(i).Type()})
+		}
+		sort.Slice(fs, func(i, j int) bool { return fs[i].k < fs[j].k })
+		for _, f := range fs {
+			t := f.t
+			for i := 0; i < 6; i++ {
+				switch x := t.(type) {
+				case *types.Pointer:
+					t = x.Elem()
+				case *types.Slice:
+					t = x.Elem()
+				case *types.Array:
+					t = x.Elem()
+				case *types.Map:
+					t = x.Elem()
+				}
+			}
+			if nt, ok := t.(*types.Named); ok && nt.Obj().Pkg() != nil && nt.Obj().Pkg().Path() == introPkg {
+				if _, isStruct := nt.Underlying().(*types.Struct); isStruct {
+					queue = append(queue, item{nt, it.path + "." + f.k})
 				}
 			}
 		}
 	}
-	return "", token.NoPos, false
+	return
+}
+
+// directiveNameField: the field the name of a directive of the answer is decoded into (it may
+// be promoted from an embedded struct) and the struct a directive is decoded into.
+func (r *Run) directiveNameField() (*types.Var, *types.Named) {
+	_, paths := r.decodeRoles()
+	for nt, p := range paths {
+		if p == "$.__schema.directives" {
+			return jsonFields(nt.Underlying().(*types.Struct), 0)["name"], nt
+		}
+	}
+	return nil, nil
+}
+
+// jsonFields lists the fields of a decode struct as encoding/json sees them: the fields of an
+// embedded struct without a key of its own are promoted.
+func jsonFields(st *types.Struct, depth int) map[string]*types.Var {
+	out := map[string]*types.Var{}
+	if depth > 4 {
+		return out
+	}
+	for i := 0; i < st.NumFields(); i++ {
+		f := st.Field(i)
+		k := jsonKey(st.Tag(i))
+		if k == "-" {
+			continue
+		}
+		if k == "" {
+			if f.Embedded() {
+				if sub := structOf(f.Type()); sub != nil {
+					for kk, v := range jsonFields(sub, depth+1) {
+						if _, dup := out[kk]; !dup {
+							out[kk] = v
+						}
+					}
+				}
+			}
+			continue
+		}
+		out[k] = f
+	}
+	return out
 }
 
 func jsonKey(tag string) string {
@@ -150,7 +386,7 @@ func ruleIntrospectionQuery(r *Run) {
 	text, pos, ok := r.introspectionQueryText()
 	site := r.P.pos(pos)
 	if !ok {
-		r.Bad(rule, "introspection", "introspection query text", site, "the introspection query constant could not be evaluated statically (no longer a literal / Sprintf of constants)")
+		r.Bad(rule, "introspection", "introspection query text", site, "the text given as Query of the request sent by introspectRemoteSchema could not be evaluated statically (not a literal, a constant, an initialised package variable, a `+` or a Sprintf of those)")
 		return
 	}
 	schema, err := preludeSchema()
@@ -168,9 +404,9 @@ func ruleIntrospectionQuery(r *Run) {
 		r.Bad(rule, "introspection", "single operation", site, "the introspection document does not contain exactly one operation")
 		return
 	}
-	root := r.P.ByPath[introPkg].Types.Scope().Lookup("IntrospectionQueryResult")
+	root, _ := r.decodeStructs()
 	if root == nil {
-		r.Bad(rule, "introspection", "anchor IntrospectionQueryResult", site, "decode struct not found")
+		r.Bad(rule, "introspection", "anchor IntrospectionQueryResult", site, "decode struct not found (no struct of package introspection has a field decoded from the key \"__schema\")")
 		return
 	}
 	n := 0
@@ -208,12 +444,7 @@ func ruleIntrospectionQuery(r *Run) {
 			}
 			selected[k] = f
 		}
-		tags := map[string]*types.Var{}
-		for i := 0; i < st.NumFields(); i++ {
-			if k := jsonKey(st.Tag(i)); k != "" && k != "-" {
-				tags[k] = st.Field(i)
-			}
-		}
+		tags := jsonFields(st, 0)
 		var keys []string
 		for k := range tags {
 			keys = append(keys, k)
@@ -259,7 +490,7 @@ func ruleIntrospectionQuery(r *Run) {
 			}
 		}
 	}
-	st, _ := root.Type().Underlying().(*types.Struct)
+	st, _ := root.Underlying().(*types.Struct)
 	if st == nil {
 		r.Bad(rule, "introspection", "anchor IntrospectionQueryResult", site, "decode root is not a struct")
 		return
@@ -307,19 +538,23 @@ func ruleDecodedFieldsUsed(r *Run) {
 			}
 		}
 	}
-	scope := r.P.ByPath[introPkg].Types.Scope()
+	_, decoded := r.decodeStructs()
+	if len(decoded) == 0 {
+		r.Bad(rule, "introspection", "anchor decode structs", "-", "the structs the answer is decoded into were not found (no struct of package introspection has a field decoded from the key \"__schema\"): nothing could be checked")
+		return
+	}
 	n := 0
-	for _, name := range scope.Names() {
-		if !strings.HasPrefix(name, "Introspection") || name == "IntrospectionResolver" {
-			continue
+	roleNames, _ := r.decodeRoles()
+	for _, nt := range decoded {
+		name := roleNames[nt]
+		if name == "" {
+			name = nt.Obj().Name()
 		}
-		st, ok := scope.Lookup(name).Type().Underlying().(*types.Struct)
-		if !ok {
-			continue
-		}
+		st := nt.Underlying().(*types.Struct)
 		for i := 0; i < st.NumFields(); i++ {
 			f := st.Field(i)
-			if jsonKey(st.Tag(i)) == "" {
+			if k := jsonKey(st.Tag(i)); k == "" || k == "-" {
+				// an embedded struct is a decode struct of its own (its fields are promoted)
 				continue
 			}
 			n++
@@ -331,8 +566,20 @@ func ruleDecodedFieldsUsed(r *Run) {
 		}
 	}
 	r.AtLeast(rule, "decoded fields", n, 25)
-	// sibling constructors of IntrospectionInputValue read the same fields
-	iv, _ := scope.Lookup("IntrospectionInputValue").Type().Underlying().(*types.Struct)
+	// sibling constructors of the input value struct (input fields and arguments are decoded
+	// into the same struct: the parameter of parseInputField) read the same fields
+	var iv *types.Struct
+	ivName := "IntrospectionInputValue"
+	if pf := r.P.Fn("introspection.parseInputField"); pf != nil && pf.Signature.Params().Len() == 1 {
+		if nt, ok := pf.Signature.Params().At(0).Type().(*types.Named); ok {
+			iv, _ = nt.Underlying().(*types.Struct)
+			if rn := roleNames[nt]; rn != "" {
+				ivName = rn
+			} else {
+				ivName = nt.Obj().Name()
+			}
+		}
+	}
 	if iv != nil {
 		sibs := []string{"introspection.parseInputField", "introspection.parseArgList"}
 		for i := 0; i < iv.NumFields(); i++ {
@@ -355,9 +602,9 @@ func ruleDecodedFieldsUsed(r *Run) {
 				}
 			}
 			if len(missing) == 0 {
-				r.OK(rule, "introspection", "siblings read IntrospectionInputValue."+f.Name(), r.P.pos(f.Pos()), "both constructors of input values read this field")
+				r.OK(rule, "introspection", "siblings read "+ivName+"."+f.Name(), r.P.pos(f.Pos()), "both constructors of input values read this field")
 			} else if len(missing) < len(sibs) {
-				r.Bad(rule, missing[0], "siblings read IntrospectionInputValue."+f.Name(), r.P.pos(f.Pos()), "input fields and arguments are both decoded as IntrospectionInputValue, but "+strings.Join(missing, ", ")+" ignores "+f.Name()+" while its sibling uses it: argument "+strings.ToLower(f.Name())+"s are lost")
+				r.Bad(rule, missing[0], "siblings read "+ivName+"."+f.Name(), r.P.pos(f.Pos()), "input fields and arguments are both decoded as "+ivName+", but "+strings.Join(missing, ", ")+" ignores "+f.Name()+" while its sibling uses it: argument "+strings.ToLower(f.Name())+"s are lost")
 			}
 		}
 	}
@@ -410,43 +657,133 @@ func fullKinds() kset {
 }
 
 // kindSets computes, per block and per kind variable, the set of kinds under which the
-// block can be entered.
-func kindSets(fn *ssa.Function) map[*ssa.BasicBlock]map[kindVar]kset {
+// block can be entered. A branch condition is *evaluated* for each kind (absval.go): a direct
+// comparison with a constant on either side, a negation, a predicate of the module or of
+// gqlparser over the kind (`hasFields(t.Kind)`, `t.IsAbstractType()`), a lookup in a constant
+// table (`kindsWithX[t.Kind]`). A condition that cannot be evaluated admits both branches.
+func kindSets(P *Prog, fn *ssa.Function) map[*ssa.BasicBlock]map[kindVar]kset {
 	in := map[*ssa.BasicBlock]map[kindVar]kset{}
 	vars := map[kindVar]bool{}
-	type test struct {
-		v     kindVar
-		c     string
-		isEq  bool
-		found bool
-	}
-	testOf := func(b *ssa.BasicBlock) test {
-		iff, ok := b.Instrs[len(b.Instrs)-1].(*ssa.If)
-		if !ok {
-			return test{}
+	// kind variables mentioned by a condition (directly, as an argument, as a table index) and
+	// values with a Kind field handed to a predicate
+	var scan func(v ssa.Value, depth int)
+	scan = func(v ssa.Value, depth int) {
+		if depth > 4 || v == nil {
+			return
 		}
-		bo, ok := iff.Cond.(*ssa.BinOp)
-		if !ok || (bo.Op != token.EQL && bo.Op != token.NEQ) {
-			return test{}
+		if kv, ok := kindVarOf(v); ok {
+			vars[kv] = true
+			return
 		}
-		for _, pair := range [][2]ssa.Value{{bo.X, bo.Y}, {bo.Y, bo.X}} {
-			kv, ok := kindVarOf(pair[0])
-			if !ok {
-				continue
+		switch x := v.(type) {
+		case *ssa.UnOp:
+			if x.Op == token.NOT {
+				scan(x.X, depth+1)
 			}
-			if c, ok := unwrap(pair[1]).(*ssa.Const); ok && c.Value != nil && c.Value.Kind() == constant.String {
-				return test{kv, constant.StringVal(c.Value), bo.Op == token.EQL, true}
+		case *ssa.BinOp:
+			scan(x.X, depth+1)
+			scan(x.Y, depth+1)
+		case *ssa.Lookup:
+			scan(x.Index, depth+1)
+		case *ssa.ChangeType:
+			scan(x.X, depth+1)
+		case *ssa.Convert:
+			scan(x.X, depth+1)
+		case *ssa.Call:
+			if b, isBuiltin := x.Call.Value.(*ssa.Builtin); isBuiltin && b.Name() != "" {
+				return
+			}
+			for _, a := range x.Call.Args {
+				if _, isConst := a.(*ssa.Const); isConst {
+					continue
+				}
+				if _, nested := a.(*ssa.Call); nested {
+					continue
+				}
+				scan(a, depth+1)
+				if st := structOf(a.Type()); st != nil {
+					if _, isSlice := a.Type().Underlying().(*types.Slice); isSlice {
+						continue
+					}
+					for i := 0; i < st.NumFields(); i++ {
+						if st.Field(i).Name() == "Kind" {
+							vars[kindVar{canonBase(a), st.Field(i)}] = true
+						}
+					}
+				}
 			}
 		}
-		return test{}
 	}
 	for _, b := range fn.Blocks {
-		if t := testOf(b); t.found {
-			vars[t.v] = true
+		if iff, ok := b.Instrs[len(b.Instrs)-1].(*ssa.If); ok {
+			scan(iff.Cond, 0)
 		}
 	}
 	if len(vars) == 0 {
 		return in
+	}
+	// the branch taken by block b when kind variable v has kind k: 0, 1, or -1 (either)
+	type bk struct {
+		b *ssa.BasicBlock
+		v kindVar
+		k string
+	}
+	memo := map[bk]int{}
+	ctxs := map[kindVar]map[string]*absCtx{}
+	branch := func(b *ssa.BasicBlock, v kindVar, k string) int {
+		iff, ok := b.Instrs[len(b.Instrs)-1].(*ssa.If)
+		if !ok {
+			return -1
+		}
+		key := bk{b, v, k}
+		if r, ok := memo[key]; ok {
+			return r
+		}
+		if ctxs[v] == nil {
+			ctxs[v] = map[string]*absCtx{}
+		}
+		c := ctxs[v][k]
+		if c == nil {
+			base := v.base
+			c = &absCtx{P: P, kind: k, budget: 100000, memo: map[string][]aval{}, isSubject: func(x ssa.Value) bool {
+				return x == base || canonBase(x) == base
+			}}
+			ctxs[v][k] = c
+		}
+		fr := &frame{c: c, fn: fn, root: true}
+		st := &pathState{env: map[ssa.Value]aval{}, tup: map[ssa.Value][]aval{}, visits: map[*ssa.BasicBlock]int{}}
+		// a predicate called right in this block for the condition
+		var calls func(v ssa.Value, depth int)
+		calls = func(v ssa.Value, depth int) {
+			ins, ok := v.(ssa.Instruction)
+			if !ok || depth > 4 || ins.Block() != b {
+				return
+			}
+			for _, op := range operandsOf(ins) {
+				calls(op, depth+1)
+			}
+			if call, ok := v.(*ssa.Call); ok {
+				if _, done := st.env[call]; done {
+					return
+				}
+				if res := fr.execCall(call, st); len(res) == 1 {
+					st.env[call] = res[0]
+				} else if len(res) > 1 {
+					st.tup[call] = res
+				}
+			}
+		}
+		calls(iff.Cond, 0)
+		r := -1
+		if a := fr.eval(iff.Cond, st); a.k == avConst && a.c.Kind() == constant.Bool && !c.overflow {
+			if constant.BoolVal(a.c) {
+				r = 0
+			} else {
+				r = 1
+			}
+		}
+		memo[key] = r
+		return r
 	}
 	for _, b := range fn.Blocks {
 		in[b] = map[kindVar]kset{}
@@ -460,25 +797,13 @@ func kindSets(fn *ssa.Function) map[*ssa.BasicBlock]map[kindVar]kset {
 	for changed := true; changed; {
 		changed = false
 		for _, b := range fn.Blocks {
-			t := testOf(b)
-			for si, s := range b.Succs {
-				for v := range vars {
-					out := kset{}
-					for k := range in[b][v] {
-						out[k] = true
-					}
-					if t.found && t.v == v {
-						takeEq := (si == 0) == t.isEq
-						if takeEq {
-							out = kset{}
-							if in[b][v][t.c] {
-								out[t.c] = true
-							}
-						} else {
-							delete(out, t.c)
+			for v := range vars {
+				for k := range in[b][v] {
+					br := branch(b, v, k)
+					for si, s := range b.Succs {
+						if br >= 0 && len(b.Succs) == 2 && si != br {
+							continue
 						}
-					}
-					for k := range out {
 						if !in[s][v][k] {
 							in[s][v][k] = true
 							changed = true
@@ -508,41 +833,93 @@ func ruleKindGuardsReader(r *Run) {
 	if root == nil {
 		return
 	}
-	field2key := map[string]string{"Fields": "fields", "Interfaces": "interfaces", "PossibleTypes": "possibleTypes", "EnumValues": "enumValues", "InputFields": "inputFields"}
+	// the kind-specific lists of the answer, by role: the fields of the decode struct of a full
+	// type (the one decoded from `kind` and the kind-specific keys), by their JSON key
+	field2key := map[*types.Var]string{}
+	_, decoded := r.decodeStructs()
+	for _, nt := range decoded {
+		tags := jsonFields(nt.Underlying().(*types.Struct), 0)
+		have := 0
+		for key := range kindsOf {
+			if tags[key] != nil {
+				have++
+			}
+		}
+		if tags["kind"] == nil || have < 3 {
+			continue
+		}
+		for key := range kindsOf {
+			if tags[key] != nil {
+				field2key[tags[key]] = key
+			}
+		}
+	}
+	if len(field2key) == 0 {
+		r.Bad(rule, "introspection", "anchor full-type decode struct", "-", "no decode struct with the keys `kind` and the kind-specific lists was found: the reader's kind guards could not be checked")
+		return
+	}
 	n := 0
+	// per function and key: the kinds for which some read of the list is reachable (a reader
+	// that dispatches on the kind reads `fields` once under OBJECT and once under INTERFACE)
+	covered := map[string]kset{}
+	firstSite := map[string]string{}
+	firstFn := map[string]string{}
+	example := map[string]string{}
 	for fn := range r.P.CG.Reachable([]*ssa.Function{root}, nil) {
-		ks := kindSets(fn)
+		ks := kindSets(r.P, fn)
 		for _, ins := range allInstrs(fn) {
 			var fv *types.Var
-			var owner string
 			switch x := ins.(type) {
 			case *ssa.FieldAddr:
-				fv, owner = fieldOf(x), namedOf(x.X.Type())
+				fv = fieldOf(x)
 			case *ssa.Field:
-				fv, owner = fieldOfVal(x), namedOf(x.X.Type())
+				fv = fieldOfVal(x)
 			}
-			if fv == nil || owner != introPkg+".IntrospectionQueryFullType" {
-				continue
-			}
-			key, ok := field2key[fv.Name()]
-			if !ok {
+			key, ok := field2key[fv]
+			if fv == nil || !ok {
 				continue
 			}
 			n++
-			good := true
-			var why string
-			for v, set := range ks[ins.Block()] {
-				for _, need := range kindsOf[key] {
-					if !set[need] {
-						good = false
-						why = fmt.Sprintf("the read is reachable only for kinds %s of %s.Kind, but the specification gives `%s` for %v", ksetString(set), shortType(v.base.Type()), key, kindsOf[key])
+			key = fnName(fn) + "\x00" + key
+			if covered[key] == nil {
+				covered[key] = kset{}
+			}
+			site := r.P.pos(ins.Pos())
+			if firstSite[key] == "" || site < firstSite[key] {
+				firstSite[key], firstFn[key] = site, fnName(fn)
+			}
+			for _, k := range allKinds {
+				admitted := true
+				for v, set := range ks[ins.Block()] {
+					if !set[k] {
+						admitted = false
+						if example[key] == "" {
+							example[key] = fmt.Sprintf("the read at %s is reachable only for kinds %s of %s.Kind", site, ksetString(set), shortType(v.base.Type()))
+						}
 					}
 				}
+				if admitted {
+					covered[key][k] = true
+				}
 			}
-			r.Check(good, rule, fnName(fn), "read "+fv.Name()+" of the answer", r.P.pos(ins.Pos()),
-				"read for every kind for which the specification answers `"+key+"`",
-				"`"+key+"` of a service's answer is ignored for some kinds that carry it: "+why+" — e.g. interfaces implemented by interfaces, or possible types of interfaces, are lost from the reconstruction")
 		}
+	}
+	var keys []string
+	for k := range covered {
+		keys = append(keys, k)
+	}
+	sort.Strings(keys)
+	for _, fkey := range keys {
+		key := fkey[strings.IndexByte(fkey, 0)+1:]
+		var missing []string
+		for _, need := range kindsOf[key] {
+			if !covered[fkey][need] {
+				missing = append(missing, need)
+			}
+		}
+		r.Check(len(missing) == 0, rule, firstFn[fkey], "read `"+key+"` of the answer", firstSite[fkey],
+			"read for every kind for which the specification answers `"+key+"`",
+			"`"+key+"` of a service's answer is not read for "+fmt.Sprint(missing)+", kinds that carry it ("+example[fkey]+"; the specification gives `"+key+"` for "+fmt.Sprint(kindsOf[key])+"): e.g. the interfaces implemented by an interface, or the fields of an interface, are lost from the reconstruction")
 	}
 	r.AtLeast(rule, "reads of kind-specific answer fields", n, 5)
 	r.AtLeast(rule, "consumptions of kind-specific answer lists", r.kindListConsumers(root, field2key), 5)
@@ -554,11 +931,15 @@ func ruleKindGuardsReader(r *Run) {
 // calls) are collected, following the list through phis (a list replaced by nil on a
 // kind-dependent branch is restricted to the other branches' kinds); at least one consuming
 // effect must be reachable for all the kinds of the specification.
-func (r *Run) kindListConsumers(root *ssa.Function, field2key map[string]string) int {
+func (r *Run) kindListConsumers(root *ssa.Function, field2key map[*types.Var]string) int {
 	const rule = "R11b.read"
 	n := 0
+	// per key, over all reads of the list: the kinds for which some consuming effect is reachable
+	kcov := map[string]kset{}
+	ksite, kfn, kwhy := map[string]string{}, map[string]string{}, map[string]string{}
+	kcount := map[string]int{}
 	for fn := range r.P.CG.Reachable([]*ssa.Function{root}, nil) {
-		ks := kindSets(fn)
+		ks := kindSets(r.P, fn)
 		kindsAt := func(b *ssa.BasicBlock, restr map[kindVar]kset, need []string) (bool, string) {
 			vars := map[kindVar]bool{}
 			for v := range ks[b] {
@@ -586,25 +967,21 @@ func (r *Run) kindListConsumers(root *ssa.Function, field2key map[string]string)
 		}
 		for _, ins := range allInstrs(fn) {
 			var fv *types.Var
-			var owner string
 			var lists []ssa.Value
 			switch x := ins.(type) {
 			case *ssa.FieldAddr:
-				fv, owner = fieldOf(x), namedOf(x.X.Type())
+				fv = fieldOf(x)
 				for _, ref := range *x.Referrers() {
 					if ld, ok := ref.(*ssa.UnOp); ok && ld.Op == token.MUL {
 						lists = append(lists, ld)
 					}
 				}
 			case *ssa.Field:
-				fv, owner = fieldOfVal(x), namedOf(x.X.Type())
+				fv = fieldOfVal(x)
 				lists = append(lists, x)
 			}
-			if fv == nil || owner != introPkg+".IntrospectionQueryFullType" {
-				continue
-			}
-			key, ok := field2key[fv.Name()]
-			if !ok {
+			key, ok := field2key[fv]
+			if fv == nil || !ok {
 				continue
 			}
 			type cons struct {
@@ -709,19 +1086,42 @@ func (r *Run) kindListConsumers(root *ssa.Function, field2key map[string]string)
 				continue
 			}
 			n++
-			good, why := false, ""
+			key = fnName(fn) + "\x00" + key
+			if kcov[key] == nil {
+				kcov[key] = kset{}
+			}
+			site := r.P.pos(ins.Pos())
+			if ksite[key] == "" || site < ksite[key] {
+				ksite[key], kfn[key] = site, fnName(fn)
+			}
+			kcount[key] += len(consumers)
 			for _, c := range consumers {
-				if ok, w := kindsAt(c.ins.Block(), c.restr, kindsOf[key]); ok {
-					good = true
-					break
-				} else if why == "" {
-					why = fmt.Sprintf("e.g. the effect at %s is %s", r.P.pos(c.ins.Pos()), w)
+				for _, k := range allKinds {
+					if ok, w := kindsAt(c.ins.Block(), c.restr, []string{k}); ok {
+						kcov[key][k] = true
+					} else if kwhy[key] == "" {
+						kwhy[key] = fmt.Sprintf("e.g. the effect at %s is %s", r.P.pos(c.ins.Pos()), w)
+					}
 				}
 			}
-			r.Check(good, rule, fnName(fn), "consume "+fv.Name()+" of the answer", r.P.pos(ins.Pos()),
-				fmt.Sprintf("%d effect(s) consume the list's elements; at least one is reachable for every kind the specification answers `%s` for", len(consumers), key),
-				"every effect that consumes the elements of `"+key+"` is limited to fewer kinds than "+fmt.Sprint(kindsOf[key])+" ("+why+"): for the other kinds the service's answer is read and then dropped — e.g. an interface that implements another interface loses its `implements` clause")
 		}
+	}
+	var keys []string
+	for k := range kcov {
+		keys = append(keys, k)
+	}
+	sort.Strings(keys)
+	for _, fkey := range keys {
+		key := fkey[strings.IndexByte(fkey, 0)+1:]
+		var missing []string
+		for _, need := range kindsOf[key] {
+			if !kcov[fkey][need] {
+				missing = append(missing, need)
+			}
+		}
+		r.Check(len(missing) == 0, rule, kfn[fkey], "consume `"+key+"` of the answer", ksite[fkey],
+			fmt.Sprintf("%d effect(s) consume the list's elements; for every kind the specification answers `%s` for, at least one is reachable", kcount[fkey], key),
+			"no effect that consumes the elements of `"+key+"` is reachable for "+fmt.Sprint(missing)+" although the specification answers it for "+fmt.Sprint(kindsOf[key])+" ("+kwhy[fkey]+"): for those kinds the service's answer is read and then dropped — e.g. an interface that implements another interface loses its `implements` clause")
 	}
 	return n
 }
@@ -822,40 +1222,127 @@ func ruleResolverSpec(r *Run) {
 	}
 	r.AtLeast(rule, "introspection resolvers", len(resolvers), 6)
 	n := 0
+	isResolverFn := map[*ssa.Function]bool{}
+	for _, fs := range byType {
+		for _, f := range fs {
+			isResolverFn[f] = true
+		}
+	}
+	// one round of the selection loop, evaluated path by path (absval.go): what is stored under
+	// the alias of the selected field `name` when the type has kind `kind`
+	type roundKey struct {
+		sw         *strSwitch
+		name, kind string
+		absent     string
+	}
+	rounds := map[roundKey][]*roundOutcome{}
+	roundBad := map[roundKey]string{}
+	runners := map[*strSwitch]*roundRunner{}
+	round := func(rs resolver, name, kind, absent string) ([]*roundOutcome, string) {
+		k := roundKey{rs.sw, name, kind, absent}
+		if o, ok := rounds[k]; ok {
+			return o, roundBad[k]
+		}
+		rr, ok := runners[rs.sw]
+		if !ok {
+			var cb *ssa.BasicBlock
+			var names []string
+			for c := range rs.sw.cases {
+				names = append(names, c)
+			}
+			sort.Strings(names)
+			if len(names) > 0 {
+				cb = rs.sw.cases[names[0]]
+			}
+			if cb != nil {
+				rr = newRoundRunner(r.P, rs.fn, cb, isResolverFn)
+			}
+			runners[rs.sw] = rr
+		}
+		if rr == nil {
+			rounds[k], roundBad[k] = nil, "the switch over the selected field's name is not inside a loop over the selection"
+			return nil, roundBad[k]
+		}
+		outs, overflow := rr.run(name, kind, absent)
+		bad := ""
+		if overflow {
+			outs, bad = nil, "the resolver has too many paths to be evaluated"
+		} else if len(outs) == 0 {
+			bad = "no path through one round of the selection loop could be evaluated"
+		}
+		rounds[k], roundBad[k] = outs, bad
+		return outs, bad
+	}
+	kindsFor := func(rs resolver) []string {
+		if rs.def.Name == "__Type" && len(rs.sw.cases) >= 6 {
+			return allKinds
+		}
+		return []string{""}
+	}
 	for _, rs := range resolvers {
 		name := fnName(rs.fn)
-		// default branch stores nil?
-		defaultNil := false
-		if rs.sw.deflt != nil {
-			for _, ins := range rs.sw.deflt.Instrs {
-				if mu, ok := ins.(*ssa.MapUpdate); ok && isNilConst(unwrap(mu.Value)) {
-					defaultNil = true
+		site := r.P.pos(rs.sw.first.Cond.Pos())
+		// R11a.key: every answer is stored under the alias of the selected field
+		if rr0 := innermostLoop(rs.sw.first.Block()); rr0 != nil {
+			res := resultMaps(rs.fn)
+			for _, ins := range allInstrs(rs.fn) {
+				mu, ok := ins.(*ssa.MapUpdate)
+				if !ok || !res[mu.Map] || !rr0[mu.Block()] {
+					continue
 				}
+				n++
+				r.Check(aliasKey(mu.Key), "R11a.key", name, "answer of "+rs.def.Name+" stored under the alias", r.P.pos(mu.Pos()),
+					"the key is the alias of the selected field", "an answer of "+rs.def.Name+" is stored under a key that is not the alias of the selected field: `x: description` is answered under `description`, the key the client asked for is missing")
 			}
 		}
-		// wrapper switches of resolveType (NON_NULL / LIST) only answer kind/ofType and default to nil
-		wrapper := len(rs.sw.cases) <= 2 && defaultNil
 		for _, f := range rs.def.Fields {
 			if strings.HasPrefix(f.Name, "__") {
 				continue
 			}
 			n++
 			_, has := rs.sw.cases[f.Name]
-			site := r.P.pos(rs.sw.first.Cond.Pos())
 			construct := rs.def.Name + "." + f.Name
+			missing, null, bad := "", "", ""
+			for _, k := range kindsFor(rs) {
+				outs, b := round(rs, f.Name, k, "")
+				if b != "" {
+					bad = b
+					break
+				}
+				for _, o := range outs {
+					v, mu, ok := o.final()
+					if !ok && missing == "" {
+						missing = k
+						if k == "" {
+							missing = "any kind"
+						}
+					}
+					if ok && v.isNull() && null == "" {
+						null = r.P.pos(mu.Pos())
+					}
+				}
+			}
 			switch {
+			case bad != "":
+				r.Bad(rule, name, construct, site, "what the resolver for "+rs.def.Name+" answers for `"+f.Name+"` could not be determined: "+bad)
+			case missing != "":
+				r.Bad(rule, name, construct, site, "the resolver for "+rs.def.Name+" stores nothing for `"+f.Name+"` (type "+f.Type.String()+") on some path (for "+missing+"): validation accepts a query selecting it, but the key is missing from the answer")
+			case f.Type.NonNull && null != "":
+				r.Bad(rule, name, construct, site, "the resolver for "+rs.def.Name+" answers null for `"+f.Name+"` (stored at "+null+") although its type "+f.Type.String()+" is non-null")
 			case has:
-				r.OK(rule, name, construct, site, "explicit case")
-			case !f.Type.NonNull && defaultNil:
-				r.OK(rule, name, construct, site, "nullable field answered null by the default branch")
-			case wrapper:
-				r.OK(rule, name, construct, site, "wrapper type (LIST/NON_NULL): only kind and ofType are non-null, everything else is null by the default branch")
+				r.OK(rule, name, construct, site, "explicit case; a value is stored under the alias on every path through the round")
 			default:
-				r.Bad(rule, name, construct, site, "the resolver for "+rs.def.Name+" has no case for `"+f.Name+"` (type "+f.Type.String()+"): validation accepts a query selecting it, but the key is missing from the answer")
+				r.OK(rule, name, construct, site, "no case of its own; null is stored under the alias on every path through the round")
 			}
 		}
 		// element resolver of list/object-typed fields
-		for cname, body := range rs.sw.cases {
+		var cnames []string
+		for cname := range rs.sw.cases {
+			cnames = append(cnames, cname)
+		}
+		sort.Strings(cnames)
+		for _, cname := range cnames {
+			body := rs.sw.cases[cname]
 			fd := rs.def.Fields.ForName(cname)
 			if fd == nil {
 				r.Bad(rule, name, rs.def.Name+"."+cname, r.P.pos(firstPos(body)), "the resolver has a case `"+cname+"` that "+rs.def.Name+" does not define")
@@ -930,69 +1417,201 @@ func ruleResolverSpec(r *Run) {
 					"the specification gives `"+cname+"` the includeDeprecated argument that switches the filter off",
 					"the list answered for `"+cname+"` leaves out elements marked @deprecated, but "+rs.def.Name+"."+cname+" has no includeDeprecated argument: a deprecated "+elem+" can never be listed although validation accepts requests that use it")
 			}
-			okElem := false
-			for _, w := range want {
-				if called[w] {
-					okElem = true
+			// the elements are produced by the resolver of the declared element type — on some
+			// path of the round, and for a kind-specific list for every kind that carries it
+			elemKinds := kindsFor(rs)
+			if _, kindSpecific := kindsOf[cname]; kindSpecific && len(elemKinds) > 1 {
+				elemKinds = kindsOf[cname]
+			}
+			okElem, elemWhy := true, ""
+			var elemOuts [][]*roundOutcome
+			for _, k := range elemKinds {
+				outs, bad := round(rs, cname, k, "")
+				if bad != "" {
+					okElem, elemWhy = false, bad
+					break
+				}
+				elemOuts = append(elemOuts, outs)
+				found := false
+				for _, o := range outs {
+					for _, ev := range o.events {
+						if ev.call == nil {
+							continue
+						}
+						for _, w := range want {
+							if ev.call == w || r.P.CG.Reachable([]*ssa.Function{ev.call}, nil)[w] {
+								found = true
+							}
+						}
+					}
+				}
+				if !found {
+					okElem = false
+					if k != "" {
+						elemWhy = "for kind " + k + " no path of the round reaches it"
+					}
 				}
 			}
+			_ = called
 			n++
 			r.Check(okElem, "R11b.elem", name, rs.def.Name+"."+cname+" resolved as "+elem, r.P.pos(firstPos(body)),
 				"elements are produced by the resolver matched to "+elem,
-				"`"+cname+"` is declared as "+fd.Type.String()+" but its elements are not produced by the resolver for "+elem+": fields of that type (e.g. defaultValue of input fields) are missing or wrong")
+				"`"+cname+"` is declared as "+fd.Type.String()+" but its elements are not produced by the resolver for "+elem+" ("+elemWhy+"): fields of that type (e.g. defaultValue of input fields) are missing or wrong")
+			// R11e.default: includeDeprecated defaults to false — when the argument is absent the
+			// elements marked @deprecated are tested for and left out
+			if fd.Arguments.ForName("includeDeprecated") != nil && fd.Type.Elem != nil {
+				okDef, whyDef := true, ""
+				for _, k := range elemKinds {
+					outs, bad := round(rs, cname, k, "includeDeprecated")
+					if bad != "" {
+						okDef, whyDef = false, bad
+						break
+					}
+					for _, o := range outs {
+						tested := false
+						for _, ev := range o.events {
+							if ev.depr {
+								tested = true
+							}
+							if ev.call != nil && isResolverFn[ev.call] && !tested {
+								okDef = false
+								whyDef = "a path of the round reaches " + fnName(ev.call) + " without the test for @deprecated"
+							}
+						}
+					}
+				}
+				n++
+				r.Check(okDef, "R11e.default", name, rs.def.Name+"."+cname+" without includeDeprecated leaves deprecated elements out", r.P.pos(firstPos(body)),
+					"with the argument absent every element passes the test for @deprecated before it is resolved",
+					"`"+cname+"` selected without includeDeprecated lists elements marked @deprecated ("+whyDef+"): the specification's default is false, clients that do not ask for deprecated members get them")
+			}
+			// R11e.builtin: the fields of a type are listed without the introspection meta fields
+			// gqlparser adds to the query root (__schema, __type): their name is tested
+			if rs.def.Name == "__Type" && cname == "fields" {
+				direct, okB := false, true
+				for _, outs := range elemOuts {
+					for _, o := range outs {
+						tested := false
+						for _, ev := range o.events {
+							if ev.nameT {
+								tested = true
+							}
+							for _, w := range want {
+								if ev.call == w {
+									direct = true
+									if !tested {
+										okB = false
+									}
+								}
+							}
+						}
+					}
+				}
+				if direct {
+					n++
+					r.Check(okB, "R11e.builtin", name, "__Type.fields leaves the introspection meta fields out", r.P.pos(firstPos(body)),
+						"every field definition passes a test of its name before it is resolved",
+						"`fields` resolves field definitions without a test of their name: gqlparser adds `__schema` and `__type` to the fields of the query root, and they are listed as fields of Query although the specification says they are not part of the type's fields")
+				}
+			}
+		}
+		// values answered by the cases
+		for _, cname := range cnames {
+			fd := rs.def.Fields.ForName(cname)
+			if fd == nil {
+				continue
+			}
+			seenMu := map[*ssa.MapUpdate]bool{}
+			for _, k := range kindsFor(rs) {
+				outs, _ := round(rs, cname, k, "")
+				for _, o := range outs {
+					_, mu, ok := o.final()
+					if !ok || seenMu[mu] {
+						continue
+					}
+					seenMu[mu] = true
+					r.checkAnsweredValue(name, rs.def.Name, cname, mu)
+				}
+			}
+		}
+	}
+	// R11a.arg: a resolver that is handed a definition built on the spot reads only fields the
+	// builder filled in (resolveInputField builds the ArgumentDefinition of an input field)
+	doneArgs := map[*ssa.Function]bool{}
+	for _, rs := range resolvers {
+		if !doneArgs[rs.fn] {
+			doneArgs[rs.fn] = true
+			r.checkBuiltArguments(rs.fn, rs.def.Name)
 		}
 	}
 	r.AtLeast(rule, "introspection fields checked", n, 30)
 
-	// R11b: kind guards of the __Type resolver
+	// R11b: kind guards of the __Type resolver — for every kind-specific field and every kind,
+	// what one round of the selection loop stores under the alias: not null exactly for the kinds
+	// the specification names (a dropped case, a nil list, a guard in a helper or a predicate are
+	// all evaluated, not recognised by shape)
 	for _, rs := range resolvers {
 		if rs.def.Name != "__Type" || len(rs.sw.cases) < 6 {
 			continue
 		}
-		ks := kindSets(rs.fn)
-		for key, want := range kindsOf {
-			body, ok := rs.sw.cases[key]
-			if !ok {
-				continue
-			}
-			// kinds under which a non-nil value is stored for this case
-			got := kset{}
-			seen := false
-			for _, b := range rs.fn.Blocks {
-				if !(b == body || (len(body.Preds) == 1 && body.Dominates(b))) {
-					continue
-				}
-				for _, ins := range b.Instrs {
-					mu, ok := ins.(*ssa.MapUpdate)
-					if !ok || isNilConst(unwrap(mu.Value)) {
-						continue
-					}
-					seen = true
-					if len(ks[b]) == 0 {
-						for _, k := range allKinds {
-							got[k] = true
-						}
-					}
-					for _, set := range ks[b] {
-						for k := range set {
-							got[k] = true
-						}
-					}
-				}
-			}
+		var keys []string
+		for key := range kindsOf {
+			keys = append(keys, key)
+		}
+		sort.Strings(keys)
+		for _, key := range keys {
 			wantSet := kset{}
-			for _, k := range want {
+			for _, k := range kindsOf[key] {
 				wantSet[k] = true
 			}
-			eq := seen && len(got) == len(wantSet)
-			for k := range wantSet {
-				if !got[k] {
+			site := r.P.pos(rs.sw.first.Cond.Pos())
+			if body, ok := rs.sw.cases[key]; ok {
+				site = r.P.pos(firstPos(body))
+			}
+			got, nullFor := kset{}, kset{}
+			understoodIn, understoodOut := false, false
+			why := ""
+			for _, k := range allKinds {
+				outs, bad := round(rs, key, k, "")
+				if bad != "" {
+					why = bad
+					break
+				}
+				allNotNull, allNull := len(outs) > 0, len(outs) > 0
+				for _, o := range outs {
+					v, _, ok := o.final()
+					if !ok || !v.isNotNull() {
+						allNotNull = false
+					}
+					if !ok || !v.isNull() {
+						allNull = false
+					}
+					if ok && v.isNotNull() {
+						got[k] = true
+					}
+					if !ok || v.isNull() {
+						nullFor[k] = true
+					}
+				}
+				if wantSet[k] && allNotNull {
+					understoodIn = true
+				}
+				if !wantSet[k] && allNull {
+					understoodOut = true
+				}
+			}
+			eq := why == "" && understoodIn && (understoodOut || len(wantSet) == len(allKinds))
+			for _, k := range allKinds {
+				if wantSet[k] && nullFor[k] || !wantSet[k] && got[k] {
 					eq = false
 				}
 			}
-			r.Check(eq, "R11b.kind", fnName(rs.fn), "__Type."+key+" non-null exactly for "+ksetString(wantSet), r.P.pos(firstPos(body)),
-				"a non-null answer is produced exactly for the kinds the specification names",
-				"`"+key+"` is answered non-null for kinds "+ksetString(got)+" but the specification requires exactly "+ksetString(wantSet)+" (null otherwise): clients rebuilding the schema see fields/members on the wrong kinds or miss them")
+			if why == "" && !(understoodIn && understoodOut) {
+				why = "the value stored could not be determined for any kind"
+			}
+			r.Check(eq, "R11b.kind", fnName(rs.fn), "__Type."+key+" non-null exactly for "+ksetString(wantSet), site,
+				"a non-null answer is produced exactly for the kinds the specification names (evaluated per kind on every path of the round)",
+				"`"+key+"` is answered non-null for kinds "+ksetString(got)+" and null (or not at all) for kinds "+ksetString(nullFor)+" but the specification requires a list exactly for "+ksetString(wantSet)+" (null otherwise) ["+why+"]: clients rebuilding the schema see fields/members on the wrong kinds or miss them")
 		}
 	}
 	// R11e.scope: sibling fields of one selection are answered independently. In the loop over
@@ -1428,4 +2047,171 @@ func ruleEnumTables(r *Run) {
 		r.OK(rule, "", "no near-complete enumeration tables", "-", fmt.Sprintf("no composite literal in the module lists three quarters or more of a gqlparser enumeration (%d enumerations known): nothing to compare", nEnums))
 	}
 	r.AtLeast(rule, "gqlparser enumerations known", nEnums, 3)
+}
+
+// checkAnsweredValue: what a case stores is the thing its label names.
+func (r *Run) checkAnsweredValue(fn, typ, cname string, mu *ssa.MapUpdate) {
+	site := r.P.pos(mu.Pos())
+	v := unwrap(mu.Value)
+	// a field of a gqlparser definition answered directly: it is the field the label names when
+	// the definition has one of that name (`description` answers X.Description, not X.Name)
+	if ld, ok := v.(*ssa.UnOp); ok && ld.Op == token.MUL {
+		if fa, ok := ld.X.(*ssa.FieldAddr); ok && fieldOf(fa) != nil && strings.Contains(namedOf(fa.X.Type()), "gqlparser/v2/ast.") {
+			if st := structOf(fa.X.Type()); st != nil {
+				hasNamed := false
+				for i := 0; i < st.NumFields(); i++ {
+					if strings.EqualFold(st.Field(i).Name(), cname) {
+						hasNamed = true
+					}
+				}
+				if hasNamed {
+					r.Check(strings.EqualFold(fieldOf(fa).Name(), cname), "R11a.value", fn, typ+"."+cname+" answers the field of that name", site,
+						"the definition's field of the same name is answered",
+						"`"+cname+"` of "+typ+" answers "+shortType(fa.X.Type())+"."+fieldOf(fa).Name()+" although the definition has a field for `"+cname+"`: clients read the wrong text")
+				}
+			}
+			// a default value is answered as a GraphQL literal: Raw is the bare text of a scalar
+			// (a string without its quotes) and empty for lists and objects
+			if cname == "defaultValue" && fieldOf(fa).Name() == "Raw" && strings.HasSuffix(namedOf(fa.X.Type()), "gqlparser/v2/ast.Value") {
+				r.Bad("R11a.value", fn, typ+".defaultValue is a GraphQL literal", site,
+					"`defaultValue` answers ast.Value.Raw: for a string default the quotes are missing and for a list or an object it is empty — the specification wants the value encoded as a GraphQL literal (Value.String())")
+			}
+		}
+	}
+	// the root types: `queryType` answers the query root and no other
+	if typ == "__Schema" && strings.HasSuffix(cname, "Type") {
+		own := strings.TrimSuffix(cname, "Type")
+		roots := map[string]bool{}
+		seen := map[ssa.Value]bool{}
+		var walk func(v ssa.Value, d int)
+		walk = func(v ssa.Value, d int) {
+			if v == nil || seen[v] || d > 8 {
+				return
+			}
+			seen[v] = true
+			switch x := v.(type) {
+			case *ssa.Const:
+				if x.Value != nil && x.Value.Kind() == constant.String {
+					roots[constant.StringVal(x.Value)] = true
+				}
+				return
+			case *ssa.FieldAddr:
+				if f := fieldOf(x); f != nil && strings.HasSuffix(namedOf(x.X.Type()), "gqlparser/v2/ast.Schema") {
+					roots[f.Name()] = true
+				}
+			case *ssa.Alloc:
+				// a literal built on the spot: what is stored into it
+				for _, ref := range *x.Referrers() {
+					if fa, ok := ref.(*ssa.FieldAddr); ok {
+						for _, r2 := range *fa.Referrers() {
+							if st, ok := r2.(*ssa.Store); ok && st.Addr == ssa.Value(fa) {
+								walk(st.Val, d+1)
+							}
+						}
+					}
+				}
+			}
+			if ins, ok := v.(ssa.Instruction); ok {
+				for _, op := range operandsOf(ins) {
+					walk(op, d+1)
+				}
+			}
+		}
+		walk(mu.Value, 0)
+		other := ""
+		for _, root := range []string{"Query", "Mutation", "Subscription"} {
+			if roots[root] && !strings.EqualFold(root, own) {
+				other = root
+			}
+		}
+		r.Check(other == "", "R11a.value", fn, typ+"."+cname+" answers its own root", site,
+			"no other root operation type is named by the answer",
+			"`"+cname+"` is answered from the "+other+" root: clients see the wrong type as the "+own+" root")
+	}
+}
+
+// checkBuiltArguments: at every call of the resolver with a definition built by a literal at the
+// call site, the literal fills in every field the resolver reads.
+func (r *Run) checkBuiltArguments(fn *ssa.Function, typ string) {
+	for pi, p := range fn.Params {
+		st := structOf(p.Type())
+		if _, isPtr := p.Type().Underlying().(*types.Pointer); !isPtr || st == nil || !strings.Contains(namedOf(p.Type()), "gqlparser/v2/ast.") {
+			continue
+		}
+		reads := map[string]bool{}
+		for _, ref := range *p.Referrers() {
+			if fa, ok := ref.(*ssa.FieldAddr); ok && fieldOf(fa) != nil {
+				for _, r2 := range *fa.Referrers() {
+					if ld, ok := r2.(*ssa.UnOp); ok && ld.Op == token.MUL {
+						reads[fieldOf(fa).Name()] = true
+					}
+				}
+			}
+		}
+		if len(reads) == 0 {
+			continue
+		}
+		for _, caller := range r.P.Funcs {
+			if caller.Pkg == nil || caller.Pkg.Pkg.Path() != introPkg {
+				continue
+			}
+			for _, ins := range allInstrs(caller) {
+				call, ok := ins.(*ssa.Call)
+				if !ok || pi >= len(call.Call.Args) {
+					continue
+				}
+				sc := call.Call.StaticCallee()
+				if sc == nil || (sc != fn && r.P.declared(sc) != fn) {
+					continue
+				}
+				al, ok := call.Call.Args[pi].(*ssa.Alloc)
+				if !ok {
+					continue
+				}
+				// the literal converts another definition: fields copied under their own name
+				// from one source (`Name: field.Name, Description: field.Description, …`)
+				filled := map[string]bool{}
+				copied := map[ssa.Value]int{}
+				for _, ref := range *al.Referrers() {
+					if fa, ok := ref.(*ssa.FieldAddr); ok && fieldOf(fa) != nil {
+						for _, r2 := range *fa.Referrers() {
+							if s, ok := r2.(*ssa.Store); ok && s.Addr == ssa.Value(fa) {
+								filled[fieldOf(fa).Name()] = true
+								if ld, ok := s.Val.(*ssa.UnOp); ok && ld.Op == token.MUL {
+									if sfa, ok := ld.X.(*ssa.FieldAddr); ok && fieldOf(sfa) != nil && fieldOf(sfa).Name() == fieldOf(fa).Name() {
+										copied[sfa.X]++
+									}
+								}
+							}
+						}
+					}
+				}
+				var src ssa.Value
+				for v, k := range copied {
+					if k >= 2 && (src == nil || k > copied[src]) {
+						src = v
+					}
+				}
+				if src == nil {
+					continue // built from scratch (`&ast.Type{NamedType: name}`): zero fields are meant
+				}
+				srcSt := structOf(src.Type())
+				var missing []string
+				for f := range reads {
+					if filled[f] || srcSt == nil {
+						continue
+					}
+					for i := 0; i < srcSt.NumFields(); i++ {
+						if srcSt.Field(i).Name() == f {
+							missing = append(missing, f)
+						}
+					}
+				}
+				sort.Strings(missing)
+				r.Check(len(missing) == 0, "R11a.arg", fnName(caller), "definition built for "+fnName(fn), r.P.pos(call.Pos()),
+					"the literal copies every field of its source that the resolver reads",
+					"the "+shortType(p.Type())+" built here from a "+shortType(src.Type())+" for the resolver of "+typ+" does not copy "+strings.Join(missing, ", ")+", which the source has and the resolver reads to answer its fields: they are answered empty/null (e.g. an input field loses its defaultValue)")
+			}
+		}
+	}
 }
